@@ -17,7 +17,8 @@ import (
 )
 
 type Op struct {
-	K    string  `json:"k"` // insert delete update clear recreate index query prepare execute
+	K    string  `json:"k"` // insert delete update clear recreate index query prepare execute fail
+	Fail int     `json:"fail,omitempty"` // fail: 0 unknown column, 1 unknown table, 2 INSERT of the wrong arity
 	T    int     `json:"t,omitempty"`
 	Rows [][]Val `json:"rows,omitempty"`
 	C    int     `json:"c,omitempty"`
@@ -37,6 +38,11 @@ type History struct {
 	Queries []*Query `json:"queries"`
 	Ordered []bool   `json:"ordered"`
 	NSess   int      `json:"sessions"`
+	// Trig: table TrigT has the triggers  BEFORE INSERT: SET NEW.c<TrigC> = (SELECT MAX(x.c0) FROM t<LG> x)  and
+	// AFTER INSERT: INSERT INTO t<LG> VALUES (NEW.c<TrigC> + 1); the log table t<LG> is the last table
+	Trig  bool `json:"trig,omitempty"`
+	TrigT int  `json:"trig_t,omitempty"`
+	TrigC int  `json:"trig_c,omitempty"`
 	Ops     []Op     `json:"ops"`
 	Setup   []string `json:"setup,omitempty"`
 	QSQL    []string `json:"query_sql,omitempty"`
@@ -56,10 +62,41 @@ func eqVal(a, b RV) bool {
 }
 
 // applyDML mirrors apply_dml of the Coq model on the driver's own copy of the table contents
+func logMax(t *Table) (int64, bool) {
+	var m int64
+	ok := false
+	for _, r := range t.Rows {
+		if r[0].K == "int" && (!ok || r[0].I > m) {
+			m, ok = r[0].I, true
+		}
+	}
+	return m, ok
+}
+
+var curHist *History // the history being executed (applyDML needs its trigger description)
+
 func applyDML(tables []Table, o *Op) {
 	t := &tables[o.T]
 	switch o.K {
+	case "fail":
+		return
 	case "insert":
+		if curHist != nil && curHist.Trig && o.T == curHist.TrigT {
+			lg := &tables[len(tables)-1]
+			for _, r := range o.Rows {
+				nr := append([]Val{}, r...)
+				m, ok := logMax(lg)
+				if ok {
+					nr[curHist.TrigC] = *intv(m)
+					lg.Rows = append(lg.Rows, []Val{*intv(m + 1)})
+				} else {
+					nr[curHist.TrigC] = *null()
+					lg.Rows = append(lg.Rows, []Val{*null()})
+				}
+				t.Rows = append(t.Rows, nr)
+			}
+			return
+		}
 		t.Rows = append(t.Rows, o.Rows...)
 	case "delete":
 		var keep [][]Val
@@ -128,6 +165,14 @@ func opSQL(h *History, tables []Table, o *Op) []string {
 			}
 		}
 		return []string{fmt.Sprintf("ALTER TABLE t%d ADD INDEX k%d (c%d)", o.T, o.C, o.C)}
+	case "fail":
+		switch o.Fail {
+		case 0:
+			return []string{fmt.Sprintf("SELECT x.nosuchcol FROM t%d AS x", o.T)}
+		case 1:
+			return []string{fmt.Sprintf("SELECT x.c0 FROM t%d AS x INNER JOIN nosuchtable AS y ON 1", o.T)}
+		}
+		return []string{fmt.Sprintf("INSERT INTO t%d VALUES (%s)", o.T, strings.TrimSuffix(strings.Repeat("1, ", len(tables[o.T].Types)+1), ", "))}
 	case "query":
 		return []string{qsql(h, tables, o.QI)}
 	case "prepare":
@@ -236,6 +281,13 @@ func execute(h *History, record bool) *outcome {
 		sess[i] = e.Session()
 	}
 	sess[0].MustExec(setupSQL(&Case{Tables: tables})...)
+	curHist = h
+	if h.Trig {
+		lg := len(tables) - 1
+		sess[0].MustExec(
+			fmt.Sprintf("CREATE TRIGGER trb BEFORE INSERT ON t%d FOR EACH ROW SET NEW.c%d = (SELECT MAX(x.c0) FROM t%d AS x)", h.TrigT, h.TrigC, lg),
+			fmt.Sprintf("CREATE TRIGGER tra AFTER INSERT ON t%d FOR EACH ROW INSERT INTO t%d VALUES (NEW.c%d + 1)", h.TrigT, lg, h.TrigC))
+	}
 	prepared := map[[2]int]int{}  // (sid, name) -> query index
 	preparedAt := map[[2]int]int{} // op index of the PREPARE
 	lastWrite, lastWriteSid, lastWriteOp := "none", -1, -1
@@ -341,6 +393,11 @@ func execute(h *History, record bool) *outcome {
 					out.deviation = true
 				}
 			}
+		case "fail":
+			if r := s.Query(stmts[0]); r.Err == nil {
+				out.dmlError = fmt.Sprintf("step %d: %s was expected to fail", i, stmts[0])
+				return out
+			}
 		case "prepare":
 			r := s.Query(stmts[0])
 			if r.Err != nil {
@@ -369,7 +426,12 @@ func coqOp(h *History, o *Op, nsess int) string {
 	switch o.K {
 	case "insert":
 		rows := lib.CoqListOf(o.Rows, func(r []Val) string { return lib.CoqListOf(r, func(v Val) string { return coqVal(&v) }) })
+		if h.Trig && o.T == h.TrigT {
+			return "(OInsertLog " + coqNat(o.T) + " " + coqNat(h.TrigC) + " " + coqNat(len(h.Tables)-1) + " " + rows + ")"
+		}
 		return "(OInsert " + coqNat(o.T) + " " + rows + ")"
+	case "fail":
+		return "(OIndex " + coqNat(o.T) + ")"
 	case "delete":
 		return "(ODelete " + coqNat(o.T) + " " + coqNat(o.C) + " " + coqVal(o.V) + ")"
 	case "update":
@@ -395,7 +457,25 @@ func genHistory(r *lib.RNG) *History {
 	for i := range g.tables {
 		g.tables[i].PK = -1
 	}
-	h := &History{Tables: g.tables, NSess: r.Range(1, 3)}
+	h := &History{NSess: r.Range(1, 3)}
+	if r.Chance(1, 3) {
+		// a log table (last) and a pair of triggers on a table with an INT column
+		var cands [][2]int
+		for ti, t := range g.tables {
+			for ci, ty := range t.Types {
+				if ty == "int" {
+					cands = append(cands, [2]int{ti, ci})
+				}
+			}
+		}
+		if len(cands) > 0 {
+			p := lib.Pick(r, cands)
+			h.Trig, h.TrigT, h.TrigC = true, p[0], p[1]
+			g.tables = append(g.tables, Table{Types: []string{"int"}, PK: -1, Rows: [][]Val{{*intv(100)}}})
+		}
+	}
+	h.Tables = g.tables
+	curHist = h
 	nq := r.Range(1, 3)
 	for len(h.Queries) < nq {
 		q, ts := g.queryT(nil, nil, 2, true)
@@ -417,7 +497,11 @@ func genHistory(r *lib.RNG) *History {
 	prepared := [][3]int{} // sid, name, qi
 	for len(h.Ops) < n {
 		o := Op{Sid: r.Intn(h.NSess), T: r.Intn(len(tables))}
+		if h.Trig && o.T == len(tables)-1 && r.Chance(1, 2) {
+			o.T = h.TrigT
+		}
 		t := &tables[o.T]
+		isLog := h.Trig && o.T == len(tables)-1
 		pickVal := func(c int) *Val {
 			var present []Val
 			for _, row := range t.Rows {
@@ -436,8 +520,10 @@ func genHistory(r *lib.RNG) *History {
 			return v
 		}
 		switch k := r.Intn(100); {
-		case k < 40:
+		case k < 34:
 			o.K, o.QI = "query", r.Intn(len(h.Queries))
+		case k < 40:
+			o.K, o.Fail = "fail", r.Intn(3)
 		case k < 48:
 			o.K, o.QI, o.Name = "prepare", r.Intn(len(h.Queries)), r.Intn(3)
 			prepared = append(prepared, [3]int{o.Sid, o.Name, o.QI})
@@ -446,7 +532,11 @@ func genHistory(r *lib.RNG) *History {
 			o.K, o.Sid, o.Name = "execute", p[0], p[1]
 		case k < 75:
 			o.K = "insert"
-			for i := r.Range(1, 2); i > 0 && len(t.Rows)+len(o.Rows) < 7; i-- {
+			nins, maxRows := r.Range(1, 2), 7
+			if h.Trig && o.T == h.TrigT {
+				nins, maxRows = r.Range(2, 3), 10
+			}
+			for i := nins; i > 0 && len(t.Rows)+len(o.Rows) < maxRows; i-- {
 				row := make([]Val, len(t.Types))
 				for c, ty := range t.Types {
 					row[c] = *g.lit(tyOf(ty))
@@ -474,6 +564,12 @@ func genHistory(r *lib.RNG) *History {
 		}
 		if o.K == "" {
 			continue
+		}
+		if isLog && o.K != "query" && o.K != "prepare" && o.K != "execute" && o.K != "fail" {
+			continue // the log table is written by the triggers only
+		}
+		if h.Trig && o.T == h.TrigT && o.K == "recreate" {
+			continue // DROP TABLE would drop the triggers
 		}
 		applyDML(tables, &o)
 		h.Ops = append(h.Ops, o)
@@ -570,7 +666,11 @@ func run(c *lib.Ctx, h *History) {
 }
 
 func historySQL(h *History) []string {
+	curHist = h
 	out := append([]string{}, setupSQL(&Case{Tables: h.Tables})...)
+	if h.Trig {
+		out = append(out, fmt.Sprintf("triggers on t%d: BEFORE INSERT SET NEW.c%d = (SELECT MAX(c0) FROM t%d); AFTER INSERT: INSERT INTO t%d VALUES (NEW.c%d + 1)", h.TrigT, h.TrigC, len(h.Tables)-1, len(h.Tables)-1, h.TrigC))
+	}
 	tables := cloneTables(h.Tables)
 	for i := range h.Ops {
 		o := &h.Ops[i]
@@ -660,7 +760,27 @@ func corpus() []*History {
 	scal := sel(tbl(0), tru(), col(0, 0), &Expr{Op: "scalar", Q: &Query{K: "group", Src: tbl(1), Wh: tru(), Aggs: []Agg{{F: "count*", E: tru()}}, Hav: tru(), Proj: []*Expr{col(0, 0)}}})
 	tabs := []Table{{Types: []string{"int"}, PK: -1, Rows: iv(1, 2, 3)}, {Types: []string{"int"}, PK: -1, Rows: iv(1)}}
 	two := intv(2)
+	scan1 := sel(tbl(1), tru(), col(0, 0))
+	iv2 := func(a, b int) []Val { return []Val{*intv(int64(a)), *intv(int64(b))} }
+	trigTabs := []Table{{Types: []string{"int", "int"}, PK: -1, Rows: [][]Val{iv2(1, 0)}}, {Types: []string{"int"}, PK: -1, Rows: iv(100)}}
 	return []*History{{
+		// a statement that fails in session 0 after resolving t1, then another session commits a write to t1
+		Tables: tabs, Queries: []*Query{scan1, inq}, Ordered: []bool{false, false}, NSess: 2,
+		Ops: []Op{
+			{K: "query", Sid: 0, QI: 0}, {K: "fail", Sid: 0, T: 1, Fail: 0}, {K: "insert", Sid: 1, T: 1, Rows: iv(2)}, {K: "query", Sid: 0, QI: 0},
+			{K: "fail", Sid: 0, T: 1, Fail: 2}, {K: "insert", Sid: 1, T: 1, Rows: iv(3)}, {K: "query", Sid: 0, QI: 1},
+			{K: "insert", Sid: 0, T: 0, Rows: iv(7)}, {K: "query", Sid: 1, QI: 0}, {K: "query", Sid: 1, QI: 1},
+			{K: "fail", Sid: 1, T: 0, Fail: 1}, {K: "delete", Sid: 0, T: 1, C: 0, V: two}, {K: "query", Sid: 1, QI: 0},
+		},
+	}, {
+		// triggers whose body holds an uncorrelated scalar subquery over data changed by the same statement
+		Tables: trigTabs, Queries: []*Query{sel(tbl(0), tru(), col(0, 0), col(0, 1)), scan1}, Ordered: []bool{false, false}, NSess: 1,
+		Trig: true, TrigT: 0, TrigC: 1,
+		Ops: []Op{
+			{K: "insert", T: 0, Rows: [][]Val{iv2(2, 0), iv2(3, 0), iv2(4, 0)}}, {K: "query", QI: 0}, {K: "query", QI: 1},
+			{K: "insert", T: 0, Rows: [][]Val{iv2(5, 0), iv2(6, 0)}}, {K: "query", QI: 0}, {K: "query", QI: 1},
+		},
+	}, {
 		Tables: tabs, Queries: []*Query{inq, join, scal}, Ordered: []bool{false, false, false}, NSess: 2,
 		Ops: []Op{
 			{K: "prepare", Sid: 0, Name: 0, QI: 0}, {K: "prepare", Sid: 1, Name: 1, QI: 2},
